@@ -57,6 +57,13 @@ def streams(obj, seen, out, depth=0):
 def js(r):
     return json.dumps(r.to_json(), sort_keys=True, default=str)
 
+def same(buf, data):
+    """The caller still holds what it passed in: same content, still readable (a closed buffer has no content any more)."""
+    try:
+        return buf.getvalue() == data
+    except ValueError:
+        return False
+
 def listing(r):
     """What the listings of a result return (texts of the units, sizes of the image / table listings)."""
     return [[u.get_text() for u in r.iterate_units()], len(list(r.iterate_images())), len(list(r.iterate_tables()))]
@@ -98,7 +105,7 @@ for f in files:
         buf = io.BytesIO(data)
         res = list(ex(buf, f))
         j1 = [js(r) for r in res]
-        rec = {"digest": hashlib.sha256("".join(j1).encode()).hexdigest(), "json": j1, "buffer_unchanged": buf.getvalue() == data,
+        rec = {"digest": hashlib.sha256("".join(j1).encode()).hexdigest(), "json": j1, "buffer_unchanged": same(buf, data),
                "observer_stable": True, "repeat_stable": True, "history": []}
         full = []
         for r in res:
@@ -114,7 +121,7 @@ for f in files:
         res2 = list(ex(b2, f))
         if [js(r) for r in res2] != j1:
             rec["repeat_stable"] = False
-        if b2.getvalue() != data:
+        if not same(b2, data):
             rec["buffer_unchanged"] = False
         # a consumer that only peeks at the first unit / image / table, then lists everything: same listing as on the first result
         for r, want in zip(res2, full):
